@@ -134,6 +134,17 @@ func (n *Node) Close() {
 	os.Remove(n.Path + "-shm")
 }
 
+// HoldReader opens a result set on the store's own *sql.DB and leaves it open, as a concurrent query
+// of the API would while it iterates: the pooled connection it uses stays checked out, so whatever the
+// store does next runs on ANOTHER connection of the pool. release closes the result set.
+func (n *Node) HoldReader() (release func()) {
+	rows, err := n.DB.Query("SELECT num FROM block ORDER BY num")
+	if err != nil {
+		panic(fmt.Sprintf("storekit: HoldReader: %v", err))
+	}
+	return func() { rows.Close() }
+}
+
 func (n *Node) Process(b aggsync.Block) error { return n.W.ProcessBlock(ctx, b) }
 func (n *Node) Reorg(from uint64) error       { return n.W.Reorg(ctx, from) }
 func (n *Node) Halted() bool {
